@@ -103,7 +103,9 @@ plan("C19", [("lifecycle", 4, 30), ("valset", 3, 20), ("slash", 3, 20), ("keys",
           "ordered list of boundary calls (client, connection, staking, slashing, bank, distribution, channel keepers; attributed to the per-consumer operation by "
           "inspecting the call stack); the scenario is re-executed once per call site with an error injected at exactly that call (all call sites of the block = exhaustive "
           "for that block); oracle: block does not fail, at most one consumer's result differs from the fault-free run, that consumer's keys equal its pre-block keys up to "
-          "the documented fallback, every other consumer equals the fault-free result; distinct = (scenario, call, position of the affected consumer)")
+          "the documented fallback (rewards: every consumer is credited in two shared denoms, the unit that may fail is one (consumer, denom) payout), every other consumer "
+          "equals the fault-free result; two token-conservation measures (rewards pool minus all credits; distribution module balance minus outstanding rewards and "
+          "community pool) are unchanged by the block under test in every run; distinct = (scenario, call, position of the affected consumer)")
 
 plan("C11", [("lifecycle", 10, 70), ("slash", 6, 40)], tests=["TestBulk200"],
      minobs={"stops": 20, "removals": 200, "stopped-consumer-blocks": 300},
@@ -115,12 +117,14 @@ plan("C11", [("lifecycle", 10, 70), ("slash", 6, 40)], tests=["TestBulk200"],
           "distinct = (cause, repeated stops, removal offset class)")
 
 plan("C17", [("valset", 6, 40), ("lifecycle", 4, 30)], tests=["TestC17Handshake"],
-     minobs={"handshake-attempts": 12, "handshake-attempts-rejected": 12, "honest-handshake-completed": 6, "bindings-checked": 500},
+     minobs={"handshake-attempts": 12, "handshake-attempts-rejected": 12, "honest-handshake-completed": 6, "bindings-checked": 500, "interleaved-handshake-groups": 1},
      rule="directed handshake matrix against real provider and consumer apps: channel ends with a single deviation (unordered, counterparty port, version, hops, unbound "
           "client, provider-initiated, combined) are committed on a malicious consumer and presented to the provider with genuine proofs; honest handshakes must complete; "
-          "repetition after success must fail; consumer-side deviations and a channel over a foreign client must be refused by the consumer; a second consumer naming the "
+          "repetition after success must fail; 2-3 concurrent handshakes for one consumer delivered in lock step (INITs, TRYs, ACKs, CONFIRMs): exactly one completes and the "
+          "consumer adopts that one; consumer-side deviations and a channel over a foreign client must be refused by the consumer; a second consumer naming the "
           "connection of a launched one; plus, after every provider block of every world, the four binding maps read from the raw store must be mutual inverses and every "
-          "CCV channel must sit on its consumer's client; distinct = attempt kind, standing map sizes")
+          "CCV channel must sit on its consumer's client, with at most one OPEN provider-port channel per consumer; the consumer-side changeover (PreCCV) half is not covered; "
+          "distinct = attempt kind, standing map sizes")
 
 plan("C07", [], tests=["TestC07Evidence"],
      minobs={"evidence-submissions": 60, "invalid-evidence-cases": 50, "punishments": 10, "punishments-with-unbonding-or-redelegating-stake": 3},
